@@ -58,6 +58,17 @@ Proof.
     + exact (sim_units_trans neq L u' u uw (sim_units_sym neq L u u' Hs) H5).
 Qed.
 
+(** equality of import sources depends only on url and id, not on the model they are resolved to *)
+Theorem import_resolution_irrelevant : forall (a b : isrc) (r1 r2 r1' r2' : resolution),
+  eq_resolved_isrc (a, r1) (b, r2) = eq_resolved_isrc (a, r1') (b, r2')
+  /\ (eq_resolved_isrc (a, r1) (b, r2) = true <-> is_url a = is_url b /\ is_id a = is_id b).
+Proof.
+  intros a b r1 r2 r1' r2'. unfold eq_resolved_isrc. cbn [fst]. split; [reflexivity|].
+  rewrite eq_isrc_iff. destruct a as [au ai], b as [bu bi]. cbn. split.
+  - intros H. injection H as -> ->. auto.
+  - intros [-> ->]. reflexivity.
+Qed.
+
 (** non-vacuity of the `_partial` theorems: the components all of whose sub-components hold exactly one
     variable form a domain for the code as it is now (flags_now), and it contains distinct, equal trees *)
 Definition one_var (c : component) : Prop :=
